@@ -1,5 +1,6 @@
 -- Root of the `Zeno` library: every property module (which pulls in models, proofs and facts).
 import Zeno.Props.C18
+import Zeno.Props.C19
 import Zeno.Props.C12
 import Zeno.Props.C11
 import Zeno.Props.C13
